@@ -154,15 +154,14 @@ class Executor:
             return list(v.items)
         raise OutsideSubset(f"cannot unpack a symbolic-length iterable {v!r}", node)
 
-    def type_facts(self, z: z3.ExprRef, td: smt.TD, st: State) -> list[z3.BoolRef]:
+    def type_facts(self, z: z3.ExprRef, td: smt.TD, st: State, depth: int = 1) -> list[z3.BoolRef]:
         """Typing facts plus the object invariants of every class the value may have."""
         facts = list(self.types.typing_fact(z, td))
         if isinstance(td, TRefT) and td.cls is not None and self.reg.object_invariants:
-            key = (z.get_id(), "inv")
-            done = st.ghost.get("invdone", frozenset())
-            if key in done:
-                return facts
-            st.ghost["invdone"] = done | {key}
+            key = (z.get_id(), depth)
+            cache = st.ghost.get("invfacts", {})
+            if key in cache:
+                return list(cache[key])
             for c in self.types.concrete_subclasses(td.cls):
                 clauses = [cl for a in c.mro for cl in self.reg.object_invariants.get(a.name, [])]
                 # declared field types are part of every object's invariant (one level deep)
@@ -174,7 +173,10 @@ class Executor:
                         ftd = self.field_td(self.repo.cls(f.owner), f)
                         if isinstance(ftd, TRefT) and ftd.cls is not None and not self.is_heap_attr(self.repo.cls(f.owner), f.name, "field", self.repo.cls(f.owner)):
                             fz = self.types.attr_symbol(self.repo.cls(f.owner), f.name, ftd)(z)
-                            ftyp.extend(self.types.typing_fact(fz, ftd))
+                            if depth > 0 and ftd.cls.name in ("Relation", "BaseRelation"):
+                                ftyp.extend(self.type_facts(fz, ftd, st, depth - 1))
+                            else:
+                                ftyp.extend(self.types.typing_fact(fz, ftd))
                 if ftyp:
                     facts.append(z3.Implies(smt.typ(z) == self.types.cid(c), z3.And(*ftyp)))
                 if not clauses:
@@ -183,6 +185,9 @@ class Executor:
                 ctx = Ctx(self, {"self": obj}, "assume", st)
                 body = [smt.lift(cl.fn(ctx, obj)).z for cl in clauses]
                 facts.append(z3.Implies(smt.typ(z) == self.types.cid(c), z3.And(*body)))
+            cache = dict(st.ghost.get("invfacts", {}))
+            cache[key] = list(facts)
+            st.ghost["invfacts"] = cache
         return facts
 
     # ------------------------------------------------------------ truthiness
